@@ -7,6 +7,7 @@
   (the latter tied in T17).
 -/
 import Gen.Src
+import Gen.SrcC04
 import CRModel.Occupancy
 namespace CR.Occ
 
@@ -198,3 +199,128 @@ theorem tie_scenario_states_chk (obs : List (Nat × Obst)) (t : Int) :
     exact ⟨l, hl, by simp [statesAtChk, show ¬ t < 0 by omega], hm⟩
 
 end CR.Occ
+
+/-! ## second part: the functions translated by harness/translate/src_c04.py (module Gen.SrcC04) -/
+namespace CR.Occ
+open CR.PyC04
+
+/-! ### per-obstacle dispatch of the remaining obstacle classes (scenario/obstacle.py) -/
+
+/-- `StaticObstacle.occupancy_at_time(t)` of the current source: `Occupancy(t, initial occupancy shape)` for EVERY `t`. -/
+theorem tie_static_occupancy (tInit t : Int) :
+    Gen.StaticObstacle_occupancy_at_time t = (occupancyAt (.static tInit) t).map (fun o => (t, o)) := by
+  simp [Gen.StaticObstacle_occupancy_at_time, occupancyAt, occupancy, Id.run, pure]
+
+theorem tie_static_state (tInit t : Int) : Gen.StaticObstacle_state_at_time t = stateAt (.static tInit) t := by
+  simp [Gen.StaticObstacle_state_at_time, stateAt, Id.run, pure]
+
+/-- `EnvironmentObstacle.occupancy_at_time(t)`: `Occupancy(t, the bare obstacle shape)`. -/
+theorem tie_environment_occupancy (t : Int) :
+    Gen.EnvironmentObstacle_occupancy_at_time t = (occupancyAt .environment t).map (fun o => (t, o)) := by
+  simp [Gen.EnvironmentObstacle_occupancy_at_time, occupancyAt, occupancy, Id.run, pure]
+
+theorem tie_phantom_state (p : Option (List TS)) (t : Int) : Gen.PhantomObstacle_state_at_time = stateAt (.phantom p) t := by
+  simp [Gen.PhantomObstacle_state_at_time, stateAt, Id.run, pure]
+
+/-! ### `Prediction.occupancy_at_time_step` and the occupancy set of a trajectory prediction (prediction/prediction.py) -/
+
+theorem firstIdxFrom_eq_findIdx {α : Type} (p q : α → Bool) (h : ∀ a, p a = q a) :
+    ∀ (l : List α) (k : Nat), firstIdxFrom p l k = findIdx q l k
+  | [], _ => rfl
+  | a :: as, k => by
+    unfold firstIdxFrom findIdx
+    rw [h a, firstIdxFrom_eq_findIdx p q h as (k + 1)]
+
+/-- what one pass of the loop body decides for a stored occupancy: int time stamps by `==`, Interval time stamps by the
+    translated `Interval.contains` (Gen.Src, tied in T16) -/
+theorem ts_contains_eq (o : TS) (t : Int) :
+    (if tsIsInterval o then (if Gen.Interval_contains_num (tsInterval o) ((t : Int) : Rat) then true else false)
+      else (if tsIsInt o then (if decide (tsInt o = t) then true else false) else false)) = o.contains t := by
+  cases o with
+  | step s => by_cases h : s = t <;> simp [tsIsInterval, tsIsInt, tsInt, TS.contains, h]
+  | ival lo hi =>
+    simp [tsIsInterval, tsInterval, TS.contains, Gen.Interval_contains_num, Id.run, pure, Rat.intCast_le_intCast]
+
+/-- `Prediction.occupancy_at_time_step(t)` of the current source returns the FIRST stored occupancy whose time stamp contains
+    `t` (an int by equality, an Interval by closed containment), `None` when the loop runs to its end. -/
+theorem tie_prediction_occupancy (occs : List TS) (t : Int) :
+    Gen.Prediction_occupancy_at_time_step occs t = .ok (findIdx (fun o => o.contains t) occs 0) := by
+  unfold Gen.Prediction_occupancy_at_time_step
+  simp only [CR.Py.assert, if_true, bind, Except.bind]
+  rw [firstIdx, firstIdxFrom_eq_findIdx _ (fun o => o.contains t) (fun o => ts_contains_eq o t)]
+  cases findIdx (fun o => o.contains t) occs 0 <;> rfl
+
+/-- … which is the model's answer for a set-based prediction. -/
+theorem tie_prediction_set_based (occs : List TS) (t : Int) :
+    (Gen.Prediction_occupancy_at_time_step (Gen.SetBasedPrediction_occupancy_set occs) t).map (·.map Occ.stored)
+      = .ok (predOccAt (.setBased occs) t) := by
+  rw [show Gen.SetBasedPrediction_occupancy_set occs = occs from rfl, tie_prediction_occupancy]
+  rfl
+
+/-- what `_create_occupancy_set` makes of one state -/
+def occOfState (wb : Option (List Rat)) (st : TState) : Int × Region :=
+  (st.time_step, ⟨if wb.isSome then .members else .own, st.idx,
+    if st.heading = .absent then .atan2 "velocity_y" "velocity" else st.heading⟩)
+
+/-- `TrajectoryPrediction._create_occupancy_set` of the current source: one occupancy per state, in the order of the state list;
+    occupancy `i` carries the time step of state `i` and the region obtained by placing the shape at state `i` itself; a state
+    without `orientation` is placed with `atan2(velocity_y, velocity)` (these two attributes, in this order); with wheelbase
+    lengths the member shapes are placed instead (outside the property's quantifier, kept for completeness). -/
+theorem tie_create_occupancy_set (wb : Option (List Rat)) (states : List TState) :
+    Gen.TrajectoryPrediction_create_occupancy_set wb states = states.map (occOfState wb) := by
+  unfold Gen.TrajectoryPrediction_create_occupancy_set
+  simp only [Id.run, pure]
+  rw [show (fun (acc : List (Int × Region)) (state : TState) => _) = fun acc state => acc ++ [occOfState wb state] from ?_]
+  · rw [foldl_append_all]; simp
+  · funext acc st
+    obtain ⟨i, t, h⟩ := st
+    cases wb <;> cases h <;>
+      simp [occOfState, TState.hasOrientation, copyState, regionOf, regionTrailer, occupancy]
+
+theorem tie_trajectory_occupancy_set (wb : Option (List Rat)) (states : List TState) :
+    Gen.TrajectoryPrediction_occupancy_set wb states = states.map (occOfState wb) := by
+  unfold Gen.TrajectoryPrediction_occupancy_set
+  simp only [Id.run, pure]
+  exact tie_create_occupancy_set wb states
+
+/-- the states of a trajectory whose i-th state carries time step `ts[i]` (numbered from `i`) -/
+def statesFrom (h : Nat → Heading) : List Int → Nat → List TState
+  | [], _ => []
+  | t :: r, i => ⟨i, t, h i⟩ :: statesFrom h r (i + 1)
+
+/-- The model's occupancy set of a trajectory prediction (`occSetOf`: entry `i` = time step of state `i`, shape placed at
+    state `i`) is what the translated `_create_occupancy_set` produces, entry by entry. -/
+theorem tie_occSetOf (ts : List Int) (h : Nat → Heading) :
+    (Gen.TrajectoryPrediction_create_occupancy_set none (statesFrom h ts 0)).map (fun e => (TS.step e.1, Occ.placed e.2.idx))
+      = occSetOf ts := by
+  rw [tie_create_occupancy_set, occSetOf]
+  generalize 0 = i
+  induction ts generalizing i with
+  | nil => rfl
+  | cons t r ih => simp [statesFrom, occSetFrom, occOfState, ih (i + 1)]
+
+/-! ### scenario level (scenario/scenario.py) -/
+
+/-- `Scenario.obstacles` of the current source chains the four dictionaries in the model's order. -/
+theorem tie_scenario_obstacles (s : Scn) : Gen.Scenario_obstacles s = s.obstacles := by
+  simp [Gen.Scenario_obstacles, Scn.obstacles, chain4, values, Id.run, pure]
+
+theorem tie_scenario_role_lists (s : Scn) :
+    Gen.Scenario_static_obstacles s = s.st ∧ Gen.Scenario_dynamic_obstacles s = s.dy ∧
+    Gen.Scenario_phantom_obstacle s = s.ph ∧ Gen.Scenario_environment_obstacle s = s.en := by
+  simp [Gen.Scenario_static_obstacles, Gen.Scenario_dynamic_obstacles, Gen.Scenario_phantom_obstacle,
+    Gen.Scenario_environment_obstacle, values, Id.run, pure]
+
+theorem find?_isSome_eq_any {α : Type} (p : α → Bool) (l : List α) : (l.find? p).isSome = l.any p := by
+  induction l with
+  | nil => rfl
+  | cons a as ih => by_cases h : p a <;> simp [List.find?, h, ih]
+
+/-- `Scenario.obstacle_by_id(i)` of the current source = the model's `Scn.byId`: static, dynamic, phantom, environment
+    dictionaries in this order, `None` when none has the id. -/
+theorem tie_scenario_obstacle_by_id (s : Scn) (i : Nat) : Gen.Scenario_obstacle_by_id s i = .ok (s.byId i) := by
+  unfold Gen.Scenario_obstacle_by_id Scn.byId Scn.obstacles
+  simp only [CR.Py.assert, if_true, bind, Except.bind, hasKey, getKey, List.find?_append, pure, Except.pure]
+  simp only [← find?_isSome_eq_any]
+  cases h1 : s.st.find? (fun x => x.1 == i) <;> cases h2 : s.dy.find? (fun x => x.1 == i) <;>
+    cases h3 : s.ph.find? (fun x => x.1 == i) <;> cases h4 : s.en.find? (fun x => x.1 == i) <;> simp
